@@ -15,7 +15,7 @@ TABLES = [
     [("a.login", "login"), ("b.login", "login-ipr"), ("combo.svc", "combined")],
     [],
 ]
-POLICIES = ["imm-ok", "end-ok", "end-rev", "never", "no-first", "mixed", "imm-acct"]
+POLICIES = ["imm-ok", "end-ok", "end-rev", "never", "no-first", "mixed", "imm-acct", "imm-okspace"]
 PWS = ["+x alice secret", "+! alice secret", "- bob pw with spaces", "+x! carol pw", None]
 
 
@@ -48,7 +48,7 @@ def run_order(session, rng, order, policy, timeout_pos, hurry_pos, pw, cid=5, fi
         return "OK alice:12345"
 
     def kind_mixed(sv):
-        return gen.reply_text(rng, rng.choice(["OK", "OKacct", "AGAIN", "MORE", "junk", "OK", "NO"]))
+        return gen.reply_text(rng, rng.choice(["OK", "OKacct", "AGAIN", "MORE", "junk", "OK", "NO", "OKspace"]))
 
     def kind_nofirst(sv):
         if not first_no_done[0]:
@@ -61,6 +61,8 @@ def run_order(session, rng, order, policy, timeout_pos, hurry_pos, pw, cid=5, fi
             reply_all(kind_ok)
         elif policy == "imm-acct":
             reply_all(kind_acct)
+        elif policy == "imm-okspace":
+            reply_all(lambda sv: rng.choice(["OK ", "OK  alice"]))
         elif policy == "mixed" and (final or rng.random() < 0.5):
             reply_all(kind_mixed)
         elif final and policy == "end-ok":
